@@ -110,6 +110,7 @@ public:
     }
 
     [[nodiscard]] n_keys_body_type get_n_keys() {
+        YAKUSHIMA_VERIF_POINT(ATOMIC, this);
         return n_keys_.load(std::memory_order_acquire);
     }
 
